@@ -11,7 +11,7 @@ from props import dbcommon
 ID = 'C14'
 HANG_CLAUSE = 'terminates'   # check.py: a case that does not return is a failing input of this clause
 CASE_TIMEOUT = 60             # wall seconds per case (check.py, SIGALRM); the module's own watchdog counts CPU time (SIGPROF)
-LEAN_MODULES = ['PybtexModel.Props.C14', 'PybtexModel.Props.C14x']
+LEAN_MODULES = ['PybtexModel.Props.C14', 'PybtexModel.Props.C14x', 'PybtexModel.Props.C14y']
 THEOREMS = {
     'C14_own_field_wins': "[model wiring] one unfolding of the model lookup (its first test is the entry's own field table): an own field is returned whatever the database and the visited set; the independent own-first claim is C14_inherits_nearest (the reference asks field, then role, of the entry before any parent)",
     'C14_inherits_nearest': 'a field the entry lacks is seen with the value of the first entry along the cross-reference chain that defines the field or role (model = reference lookup)',
@@ -30,6 +30,13 @@ THEOREMS = {
     'C14_u_inherits_nearest': "NO hypothesis: for every key normaliser (the driver runs str.lower() of the interpreter, so keys / targets / field and role names may be any Unicode text), every database value, entry and name, the loop of the code with the empty visited set equals the reference walk of len(db)+1 entries through entries[crossref] (first entry that defines the name as field or role), and any longer walk gives the same (cycles never change the answer) (what an entry defines = the model's `own`: field, else ' and '-joined role; the role clause itself rests on the ASCII theorems and the differential check)",
     'C14_u_own_missing_dangling': 'every key normaliser, database, entry, name: (1) [model wiring] an own field / role is returned whatever the database and the visited set; (2) without a database only the entry is asked; (3) missing iff no entry of the reference walk defines the name; (4) a crossref to a key the database lacks gives missing when the entry lacks the name, for every visited set',
     'C14_u_visited_only_cuts': 'every key normaliser, database, entry, name, visited set: what a lookup finds with a visited set it finds with every subset of it, and a value returned with any visited set is the reference value (Unicode twin of C14_visited_only_cuts, no hypothesis)',
+    'C14_u_is_ascii': "bridge of the two lookup models, NO hypothesis (DbWF not needed): for every ASCII-model database value (or none), visited set, entry, name, the Unicode-generic loop Uni.findFieldLoop run with the ASCII normaliser lower on the translated database / entry (Entry.toU / BibData.toU of Lemmas/CrossrefBridge.lean: the two tables of every container copied, type / wanted / citations dropped) returns what the ASCII loop findFieldLoop and the recursive findField return; _find_crossref_entry and _find_crossref_field commute with the translation likewise (induction over the loop; both models keep the same two tables, so this ties two hand-written models to each other, not a model to the code; lowerPy, the normaliser the driver runs, is NOT related to lower here)",
+    'C14_translation_onto': "the translation is onto: toU(toA(x)) = x for every Unicode-model database / entry value (toA: empty entry type, no filter, no citations), so the Unicode-generic loop with lower on ANY UDb value, visited set, entry and name equals the ASCII loop / findField on the values translated back; no hypothesis",
+    'C14_inherits_nearest_nohyp': "round-1 inheritance + walk-length independence WITHOUT DbWF / EntryWF: for every BibData value, entry, name, e.findField(name, db) and the loop from the empty visited set equal the reference walk lookupU lower over the translated database (first entry along entries[crossref] defining the name as field or role), and any walk of length >= len(db)+1 gives the same; the reference is lookupU (asks the containers through getItem), not the table-free Spec.lookup of round 1 (that needs DbWF: C14_specs_agree, C14_specs_agree_neg)",
+    'C14_specs_agree': "hypotheses DbWF db, EntryWF e: the round-2 reference lookupU lower on the translated database equals the round-1 reference Spec.lookup on db.toS (both equal the one model lookup); so the C14_u_* theorems at norm = lower and the round-1 theorems speak of the same value",
+    'C14_specs_agree_neg': "witness: on a BibData value that is not DbWF (key table lost) lookupU and the model lookup find a value that Spec.lookup over toS does not; DbWF in C14_specs_agree cannot be dropped (it is needed by the abstraction toS, not by the lookup)",
+    'C14_visited_missing_nohyp': "WITHOUT DbWF / EntryWF, every BibData value, entry, name, visited set: a value the loop returns with ANY visited set is the reference value lookupU lower of the translated database, and the lookup from the empty set is missing iff no entry of the reference walk of len(db)+1 entries defines the name (C14_u_visited_only_cuts / C14_u_own_missing_dangling carried over by C14_u_is_ascii)",
+    'C14_loop_hop_bound': "hop bound for the LOOP model, no hypothesis: for every key normaliser, database value, visited set, entry, name, the loop instrumented with a step counter (Uni.findFieldLoopHops, an instrumented COPY of the loop defined in Lemmas/CrossrefBridge.lean; conjunct 1: its value is the loop's value) takes at most len(db) _find_crossref_entry steps, none without a database; at norm = lower its counter equals the round-1 counter findFieldHops on every ASCII-model database, hence findFieldHops <= number of entries for every BibData value and every visited set without DbWF; NOT proved: anything about Python stack depth or about the real code's iteration count (the counter is tied to the code only through the value)",
     'C14_crossref_variable': 'well-formed database and entry: the BST variable crossref (interpreter Crossref.value) is the stored key of the reference parent, and missing exactly when there is no crossref field or the reference dangles (the value behind the oracle clause dangling)',
     'C14_python_names_neg': 'witness: a role (and the year the labels and sort keys read) inherited from the cross-referenced parent is seen by the BibTeX engine and not by the names node / label / sorting styles of the Python engine (finding C14-python-engine-reads-own-persons)',
 }
@@ -242,7 +249,38 @@ def _guard(f):
         return compat.pybtex_error_kind(e)
 
 
+_PRIVATE_API = {}
+
+
+def _private_api_ok():
+    """findvisited / findvisited_u call PRIVATE methods of Entry with an explicit `visited` argument.  Whether the tree under test
+    still has those methods with those parameters is decided statically (names and parameter names); if it does not (a
+    behaviour-preserving refactoring replaced the step helper by something else), the function-level cases are dropped from the
+    comparison and from the oracle: the public behaviour is observed by the other families (findfield, findfield_api, findchain,
+    fieldnode, pystyles) on every run."""
+    if 'ok' not in _PRIVATE_API:
+        import inspect
+        from pybtex.database import Entry
+        want = {'_find_crossref_entry': ['self', 'name', 'bib_data', 'visited'],
+                '_find_field': ['self', 'name', 'bib_data', 'visited'],
+                '_find_crossref_field': ['self', 'name', 'bib_data', 'visited'],
+                '_find_person_field': ['self', 'role']}
+        ok = True
+        for meth, params in want.items():
+            f = getattr(Entry, meth, None)
+            try:
+                got = list(inspect.signature(f).parameters) if f is not None else None
+            except (TypeError, ValueError):
+                got = None
+            if got is None or len(got) != len(params) or (meth != '_find_person_field' and got != params):
+                ok = False
+        _PRIVATE_API['ok'] = ok
+    return _PRIVATE_API['ok']
+
+
 def _impl_visited(case):
+    if not _private_api_ok():
+        return {'private_api': 'absent'}
     """the three lookup methods with an explicit visited set (function-level: _find_crossref_entry, _find_field,
     _find_crossref_field, _find_person_field), database built with add_entry"""
     from pybtex import errors
@@ -565,6 +603,13 @@ def _noempty(rows):
     if not isinstance(rows, list):
         return rows
     return [[k, [None if v == '' else v for v in vals]] for k, vals in rows]
+
+
+def reconcile(case, view, mo):
+    """function-level observations of private methods that the tree under test does not expose are dropped from both sides"""
+    if isinstance(view, dict) and view.get('private_api') == 'absent':
+        return view, view
+    return view, mo
 
 
 def model_out(case, reply):
@@ -890,6 +935,8 @@ def oracle(case, impl_out, reply):
     if case['op'] == 'fieldnode':
         return _oracle_fieldnode(case, impl_out, reply)
     if case['op'] in ('findvisited', 'findvisited_u'):
+        if isinstance(impl_out, dict) and impl_out.get('private_api') == 'absent':
+            return []       # the private step helpers are not there to be driven (see _private_api_ok)
         return _oracle_visited(case, impl_out, reply)
     if case['op'] == 'findchain':
         return _oracle_chain(case, impl_out, reply)
